@@ -211,7 +211,7 @@ func (p *c01) RunCase(ctx *runner.Ctx) runner.CaseResult {
 		spec.RangeT = ""
 	}
 	strPool := append(append([]string{}, mon.HostileKeys...), "1", "1.0", "1.00", "01", "7", "007")
-	numPool := []string{"1", "1.0", "10", "2", "-1", "0.5", "1e1", "100", "7"}
+	numPool := []string{"1", "1.0", "10", "2", "-1", "0.5", "1e1", "100", "7", "9007199254740992", "9007199254740993", "12345678901234567890123456789012345678", "12345678901234567890123456789012345679", "20260928123456000000001", "20260928123456000000002"}
 	part := func(t string) string {
 		if t == "N" {
 			return mon.Pick(r, numPool)
